@@ -73,7 +73,20 @@ class Dataset:
             if dtype is None and data and all(isinstance(v, (int, float, bool, np.number, np.bool_)) for v in data):
                 arr = np.asarray(data)
             elif dtype is None and data and not all(isinstance(v, (bytes, str)) for v in data):
-                raise TypeError("Object dtype dtype('O') has no native HDF5 equivalent")
+                if any(core.is_sym(v) for v in data):
+                    raise core.Unsupported("symbolic value in a dataset of mixed element kinds")
+                # what numpy makes of a mixed list is what h5py stores: numbers next to text become fixed-width text
+                coerced = np.asarray(data)
+                if coerced.dtype.kind == 'S':
+                    arr = np.empty(len(data), dtype=object)
+                    for i, v in enumerate(coerced):
+                        arr[i] = bytes(v)
+                elif coerced.dtype.kind == 'U':
+                    raise TypeError("No conversion path for dtype: dtype('<U%d')" % (coerced.dtype.itemsize // 4))
+                elif coerced.dtype == object:
+                    raise TypeError("Object dtype dtype('O') has no native HDF5 equivalent")
+                else:
+                    arr = coerced
         if shape is not None and tuple(arr.shape) != tuple(shape):
             raise ValueError("Shape tuple is incompatible with data: %r vs %r" % (tuple(shape), arr.shape))
         if isinstance(dtype, _VlenStr):
